@@ -63,6 +63,12 @@ def gen_cases(rng, count, tier='quick'):
             feature_units=(rng.choice(['plain', 'plain', 'plain', 'huge']), 'huge' if (i % 3 == 1) else 'plain')[1],
             exposure_mode=rng.choice(['none', 'pos', 'pos']) if cls == 'PoissonGAM' else 'none',
         ))
+    # PoissonGAM: every run has exposure together with sample weights, exposure alone, weights alone, and neither
+    for i, c in enumerate(cases):
+        if c['cls'] == 'PoissonGAM':
+            k = (i // len(PAIRS)) % 4
+            c['exposure_mode'] = ['pos', 'pos', 'none', 'pos'][k]
+            c['weights_mode'] = ['pos', 'none', 'int', 'int'][k]
     return cases
 
 
